@@ -722,7 +722,7 @@ func runC06(c *fw.Ctx) {
 	c.Bound("mismatch_source_lengths", []int{0, 1, 3, 4, 300})
 	c.Bound("diffdelta_ab_max_len", c.Pick(4, 6))
 	c.Bound("diffdelta_block_strings", "<=4 blocks of 16 bytes from 3 kinds (quick), <=5 (thorough)")
-	c.SetRule("(b) every delta byte stream up to delta_stream_max_len over a 12-byte alphabet, applied to the pattern source whose length is the one the stream declares (so the body is reached) and, for the buffer appliers, to 5 fixed mismatching sources; plus every truncation / one-byte substitution / junk suffix of 20 valid deltas (incl. 64 KiB copies); each run through PatchDelta, ApplyDelta, ReaderFromDelta and Parser.Parse (seekable, stream, memory storage; filesystem storage up to the shorter bound) and compared with a transcription of git's patch_delta; (a) DiffDelta on all pairs over {a,b} up to diffdelta_ab_max_len bytes (insert-only deltas), block strings and 64 KiB straddles, applied back by every applier and by real git. A case is non-trivial when the declared source size matches; distinct = (model verdict or operation shape of the accepted delta). The transcription is replayed against real git (fsck over a pack with a hand-written index: one process for all streams up to the conformance length; index-pack/unpack-objects/cat-file on all accepted ones; one index-pack or unpack-objects process per stream up to length 2 and per hand-written seed).")
+	c.SetRule("(b) every delta byte stream up to delta_stream_max_len over a 12-byte alphabet, applied to the pattern source whose length is the one the stream declares (so the body is reached), to a source one byte longer (streams up to the shorter parser bound, all appliers) and, for the buffer appliers, to 5 fixed mismatching sources; plus every truncation / one-byte substitution / junk suffix of 20 valid deltas (incl. 64 KiB copies); each run through PatchDelta, ApplyDelta, ReaderFromDelta and Parser.Parse (seekable, stream, memory storage; filesystem storage up to the shorter bound) and compared with a transcription of git's patch_delta; (a) DiffDelta on all pairs over {a,b} up to diffdelta_ab_max_len bytes (insert-only deltas), block strings and 64 KiB straddles, applied back by every applier and by real git. A case is non-trivial when the declared source size matches; distinct = (model verdict or operation shape of the accepted delta). The transcription is replayed against real git (fsck over a pack with a hand-written index: one process for all streams up to the conformance length; index-pack/unpack-objects/cat-file on all accepted ones; one index-pack or unpack-objects process per stream up to length 2 and per hand-written seed).")
 	c.Assume("git 2.39.5 is the reference; delta buffers handed to patch_delta are NUL-terminated (xmallocz), as in index-pack, unpack-objects and packfile.c")
 	c.Assume("index-pack is run without --strict in the conformance step because --strict rejects a pack whose delta result equals its base ('appears twice'), which is not a property of the delta")
 	c.Assume("size varints longer than 9 bytes are outside the enumerated space; deltas declaring a target above 64 MiB are not replayed on real git (it dies allocating the buffer, machine dependent) but are still judged by the transcription")
@@ -855,6 +855,9 @@ func runC06(c *fw.Ctx) {
 				n++
 				if len(d) <= midLen {
 					c06Check(c, src, d, mid, "", "enumerated")
+					// a source one byte longer than declared (the size check itself)
+					c06Check(c, c06Pattern(int(decl)+1), d, append(append([]int{}, fast...), mid...), "", "enumerated-longer-source")
+					n++
 				}
 				if len(d) <= fsLen {
 					c06Check(c, src, d, []int{c06ParserFS}, "", "enumerated")
